@@ -77,6 +77,11 @@ CHECKS['C09'] = ('3/C09', 'The geometry routines of the real Core re-run on Core
                  'conduction resistances, total area independent of the meshes are SMT queries; index tables of Core.load checked per '
                  'layout (enumeration, no symbolic dimension).')
 
+CHECKS['C02'] = ('3/C02', 'Cores built by the real Reactor (enumerated layouts: unequal meshes, unrodded, double duct, empty centre) with '
+                 'symbolic state: a real Core.calculate_gap_temperatures step closes cell by cell (credits = film flux * contact length * dz, '
+                 'conduction exchange antisymmetric); a real Reactor.axial_step gives heat leaving each assembly on its mesh = heat credited '
+                 'on the gap mesh (1e-9 relative, linear arithmetic); adiabatic option leaves the gap untouched.')
+
 NOT_APPLICABLE = {
     'C16': ('No symbolic dimension for a solver: process schedules/multiprocessing/file output, bitwise IEEE determinism, and '
             'object-identity/type mutation of the input dictionary on `is None`/key-presence branches (DESIGN section 4).'),
